@@ -108,6 +108,8 @@ def case_history(case):
         if (run["group"], dname) in [(x[0], x[1]) for x in run_dirs if x]:
             res["oracle"].append({"what": "a run reused an earlier run's directory", "step": step, "dir": tops[0]})
         run_dirs.append((run["group"], dname, t))
+        has_data = res.setdefault("_has_data", {})
+        has_data[(run["group"], dname)] = run["method"] in ("collect_paths", "next_paths", "collect_by_line", "next_by_line")
         model_req.append({"group": run["group"], "ts": [t.year, t.month, t.day, t.hour, t.minute, t.second]})
         # chronological order by name, and :last / :first through the API
         mine = [(x[1], x[2]) for x in run_dirs if x and x[0] == run["group"]]
@@ -131,6 +133,8 @@ def case_history(case):
                 got = f"raised {e.__class__.__name__}"
             want_dirs = secs[want_t]
             ok = isinstance(got, str) and any(os.sep + d + os.sep in got for d in want_dirs) and got.endswith(os.path.join("keep", "data.csv"))
+            if not ok and got.startswith("raised ") and not all(has_data[(run["group"], d)] for d in want_dirs):
+                ok = True    # the run the reference names left no data.csv: nothing to resolve to (and no other run's data will do)
             if not ok:
                 res["oracle"].append({"what": f"results reference with {var} does not resolve to the {'most recent' if var == ':last' else 'earliest'} run",
                                       "step": step, "got": got, "want_one_of": want_dirs})
@@ -145,6 +149,7 @@ def case_history(case):
                 res["disagree"].append({"what": "run directory name", "step": k, "real": run_dirs[k][1], "model": mr})
     res["nontrivial"] = len(case["runs"]) >= 2
     res.pop("_gens", None)
+    res.pop("_has_data", None)
     return res
 
 
